@@ -38,6 +38,20 @@ Definition set_types (p : profile) (sts : list valuetype) (dflt : string) (pt : 
      p_keepframes := p_keepframes p; p_timenanos := p_timenanos p; p_durationnanos := p_durationnanos p;
      p_periodtype := pt; p_period := period |}.
 
+Definition set_tables (p : profile) (ls : list location) (fs : list function) : profile :=
+  {| p_sampletype := p_sampletype p; p_defaultsampletype := p_defaultsampletype p; p_sample := p_sample p;
+     p_mapping := p_mapping p; p_location := ls; p_function := fs;
+     p_comments := p_comments p; p_docurl := p_docurl p; p_dropframes := p_dropframes p;
+     p_keepframes := p_keepframes p; p_timenanos := p_timenanos p; p_durationnanos := p_durationnanos p;
+     p_periodtype := p_periodtype p; p_period := p_period p |}.
+
+(* first occurrence of every id, in order *)
+Fixpoint union_by {A} (id : A -> Z) (seen : list Z) (l : list A) : list A :=
+  match l with
+  | [] => []
+  | a :: r => if existsb (Z.eqb (id a)) seen then union_by id seen r else a :: union_by id (id a :: seen) r
+  end.
+
 Definition set_val (s : sample) (v : list Z) : sample :=
   {| s_loc := s_loc s; s_val := v; s_label := s_label s; s_numlabel := s_numlabel s; s_numunit := s_numunit s |}.
 
@@ -252,7 +266,13 @@ Section Pipeline.
         | Ok _ =>
             let period := fold_left (fun acc p => if (acc =? 0) || (acc <? p_period p) then p_period p else acc) ps 0 in
             let dflt := fold_left (fun acc p => if String.eqb acc "" then p_defaultsampletype p else acc) ps ""%string in
-            Ok (set_samples (set_types p0 (p_sampletype p0) dflt (p_periodtype p0) period)
+            (* symbol tables: the inputs of a tuple use TUPLE-WIDE ids (equal id <-> equal content: the
+               function key name/system name/file/start line, the location key mapping/address/lines),
+               which is what profile.Merge's interning by content (C03) establishes; the merged
+               tables are then the union, first occurrence first *)
+            Ok (set_samples (set_tables (set_types p0 (p_sampletype p0) dflt (p_periodtype p0) period)
+                                        (union_by l_id [] (flat_map p_location ps))
+                                        (union_by f_id [] (flat_map p_function ps)))
                             (merge_samples (flat_map p_sample ps)))
         end
     end.
